@@ -23,8 +23,8 @@ pub fn oracle(tr: &Transition) -> Vec<Violation> {
     let mut v = Vec::new();
     let at = tr.at();
     match &tr.ev.op {
-        Op::Backup(_) | Op::Crashed(_) => {
-            let kind = if matches!(tr.ev.op, Op::Crashed(_)) { "interrupted-backup" } else { "backup" };
+        Op::Backup(_) | Op::Crashed(..) => {
+            let kind = if matches!(tr.ev.op, Op::Crashed(..)) { "interrupted-backup" } else { "backup" };
             for (f, bytes) in &tr.parent.snap.files {
                 match tr.child.snap.files.get(f) {
                     Some(b) if b == bytes => {}
